@@ -84,10 +84,11 @@ def offsets(r, n, hi, late=None):
 
 
 def cluster(family, n, inst, dtype, timer, r, *, byz=(), start=None, prop=None, lat=None, crashes=(), drops=(), byzplan=None,
-            horizon=None, timely=True, expire=False):
+            horizon=None, timely=True, expire=False, prelude=False):
     if start is None:
         start, prop = offsets(r, n, 0)
-    return [{"ev": "Cluster", "family": family, "n": n, "slot": slot_for(r, n, inst, dtype), "dtype": dtype, "timer": timer,
+    return [{"ev": "Cluster", "family": family, "n": n, "slot": slot_for(r, n, inst, dtype) + (13 * n if prelude else 0), "dtype": dtype, "timer": timer,
+             "prelude": prelude,
              "byz": list(byz), "start": start, "prop": prop, "lat": lat if lat is not None else lat_matrix(r, n, 10, 200),
              "crashes": list(crashes), "drops": list(drops), "byzplan": byzplan or {}, "timely": timely, "expire": expire,
              "rotate": True,   # members are logged relative to the required leader rotation (Inst = 0 in every trace)
@@ -169,6 +170,26 @@ def overtake(r, thorough):
         dtype = ["proposer", "attester", "proposer", "aggregator"][(k // 2) % 4]
         start, prop = offsets(r, n, 0)
         out.append(cluster("overtake", n, inst, dtype, r.choice(["eager", "inc"]), r, start=start, prop=prop, lat=lat))
+    return out
+
+
+def second_duty(r, thorough):
+    """The judged duty is the SECOND one the components see: an earlier duty of the same type (12 n slots before, same leader
+    rotation) has been decided on the same components, its late votes have arrived after the decision, it has expired and
+    been cleaned up - fault-free and unlogged.  Whatever the component keeps across duties (buffers, caches, pools) must not
+    show in the judged duty: its members' transcripts hold only what was sent for THIS duty."""
+    out = []
+    for k in range(10 if thorough else 3):
+        n = [6, 7, 4, 6, 7][k % 5]         # n = 6, 7: two / two COMMITs are still under way when the quorum has decided
+        inst = r.randrange(n)
+        dtype = ["attester", "proposer", "aggregator"][k % 3]
+        start, prop = offsets(r, n, 0)
+        fam_crashes = []
+        if k % 2 == 1:
+            p = r.randrange(n)
+            fam_crashes = [{"p": p, "after": r.randint(1, 4), "to": [q for q in range(n) if q != p and r.random() < 0.5]}]
+        out.append(cluster("second_duty", n, inst, dtype, r.choice(["eager", "inc"]), r, start=start, prop=prop,
+                           lat=lat_matrix(r, n, 20, 220), crashes=fam_crashes, prelude=True, expire=(k % 2 == 0 and dtype != "aggregator")))
     return out
 
 
@@ -282,7 +303,7 @@ def probe_inc():
 def schedules(tier, seed):
     thorough = tier == "thorough"
     r = vlib.rng(seed, "conscluster")
-    return honest(r, thorough) + crash(r, thorough) + overtake(r, thorough) + loss(r, thorough) + late(r, thorough) + byzantine(r, thorough)
+    return honest(r, thorough) + crash(r, thorough) + overtake(r, thorough) + second_duty(r, thorough) + loss(r, thorough) + late(r, thorough) + byzantine(r, thorough)
 
 
 # ----------------------------------------------------------------------------------------------------------------------
